@@ -12,6 +12,7 @@ import (
 	"fmt"
 	"math"
 	"reflect"
+	"runtime/debug"
 	"sort"
 	"strings"
 	"time"
@@ -105,9 +106,35 @@ func timeNode(t time.Time) node {
 		"days": int(days), "sod": int(unix - days*86400)}
 }
 
+// safeProject is projectValue for values that may have been damaged (dangling or overwritten memory):
+// a panic or memory fault while reading the value is itself the observation.
+func safeProject(v reflect.Value) (n node) {
+	defer func() {
+		if r := recover(); r != nil {
+			n = node{"k": "unprojectable", "n": fmt.Sprint(r)}
+		}
+	}()
+	old := debug.SetPanicOnFault(true)
+	defer debug.SetPanicOnFault(old)
+	return projectValue(v)
+}
+
 // projectValue turns a Go value into a value node.
 func projectValue(v reflect.Value) node {
 	t := v.Type()
+	if name, ok := customNames[t]; ok {
+		// a value of a harness-defined custom type: its underlying value, marked
+		under := v
+		switch t.Kind() {
+		case reflect.String:
+			under = reflect.ValueOf(v.String())
+		case reflect.Slice:
+			under = v.Convert(reflect.SliceOf(t.Elem()))
+		case reflect.Struct:
+			under = reflect.ValueOf(v.Field(0).Float())
+		}
+		return node{"k": "custom", "n": name, "c": []any{projectValue(under)}}
+	}
 	if !v.CanAddr() && v.CanInterface() {
 		// work on an addressable copy so that unexported fields below can be read
 		c := reflect.New(t).Elem()
@@ -135,7 +162,8 @@ func projectValue(v reflect.Value) node {
 	}
 	switch t.Kind() {
 	case reflect.Bool:
-		return boolNode(v.Bool())
+		// the raw byte: a bool variable may have been given a byte that is neither 0 nor 1
+		return node{"k": "bool", "b": []int{int(rawBytes(v)[0])}}
 	case reflect.Int, reflect.Int8, reflect.Int16, reflect.Int32, reflect.Int64:
 		return node{"k": "int", "w": int(t.Size()), "b": le64(uint64(v.Int()))}
 	case reflect.Uint, reflect.Uint8, reflect.Uint16, reflect.Uint32, reflect.Uint64, reflect.Uintptr:
@@ -176,13 +204,22 @@ func projectValue(v reflect.Value) node {
 		return node{"k": "array", "c": c}
 	case reflect.Map:
 		if t.Key().Kind() != reflect.String {
-			return node{"k": "other", "n": t.String()}
+			return node{"k": "other", "n": t.String(), "zero": v.IsZero()}
 		}
-		keys := v.MapKeys()
-		sort.Slice(keys, func(i, j int) bool { return keys[i].String() < keys[j].String() })
-		c := make([]any, len(keys))
-		for i, k := range keys {
-			c[i] = node{"k": "entry", "b": byteList([]byte(k.String())), "c": []any{projectValue(v.MapIndex(k))}}
+		// iterate (no lookups): a map whose key memory was overwritten must still be projectable
+		type kv struct {
+			k string
+			v reflect.Value
+		}
+		var kvs []kv
+		it := v.MapRange()
+		for it.Next() {
+			kvs = append(kvs, kv{strings.Clone(it.Key().String()), it.Value()})
+		}
+		sort.SliceStable(kvs, func(i, j int) bool { return kvs[i].k < kvs[j].k })
+		c := make([]any, len(kvs))
+		for i, e := range kvs {
+			c[i] = node{"k": "entry", "b": byteList([]byte(e.k)), "c": []any{projectValue(e.v)}}
 		}
 		return node{"k": "map", "c": c, "nil": v.IsNil()}
 	case reflect.Ptr:
@@ -198,7 +235,7 @@ func projectValue(v reflect.Value) node {
 		}
 		return node{"k": "struct", "c": c}
 	}
-	return node{"k": "other", "n": t.String()}
+	return node{"k": "other", "n": t.String(), "zero": v.IsZero()}
 }
 
 // rawBytes returns the memory image of a (non-pointer-containing) value.
@@ -209,7 +246,12 @@ func rawBytes(v reflect.Value) []byte {
 			c.Set(v)
 		} else {
 			// value read out of an unexported field of a non-addressable struct
-			c.SetFloat(v.Float())
+			switch v.Kind() {
+			case reflect.Bool:
+				c.SetBool(v.Bool())
+			default:
+				c.SetFloat(v.Float())
+			}
 		}
 		v = c
 	}
@@ -312,6 +354,8 @@ func projectTypeRec(t reflect.Type, open map[reflect.Type]bool) node {
 		}
 		n := tnode("struct", int(t.Size()), t.Name(), c...)
 		n["pkg"] = t.PkgPath()
+		// Avro namespace of the package path: '/' -> '.', '-' -> '_' (documented in schemaForStruct)
+		n["ns"] = strings.NewReplacer("/", ".", "-", "_").Replace(t.PkgPath())
 		return n
 	case reflect.Interface:
 		return tnode("iface", 16, t.Name())
